@@ -226,6 +226,16 @@ Definition slices_exist (st : slstore) (t : refs_tbl) (s : oset) : bool :=
   forallb (fun sp => forallb (fun n => match sl_lookup (oi_ns (os_id s), n) st with Some _ => true | None => false end)
                              (sp_slices sp)) (set_sphases t s).
 
+(** The objects of a revision as the ObjectDeployment controller's archive reconciler sees them
+    (objectdeployments/adapter_objectset.go getObjectsIncludingSlices): the identifiers of all inline objects
+    (getObjects), then, phase by phase, those of the objects of the referenced slices; namespaces defaulted to the
+    ObjectSet's; a slice that cannot be read is an error. *)
+Definition deploy_objects (st : slstore) (t : refs_tbl) (s : oset) : option (list okey) :=
+  if slices_exist st t s then
+    Some (map (spec_key s) (flat_map sp_objects (set_sphases t s)) ++
+          map (spec_key s) (flat_map (fun sp => flat_map (slice_objects st (oi_ns (os_id s))) (sp_slices sp)) (set_sphases t s)))
+  else None.
+
 Section SlicedPass.
   Variable force : bool.
 
